@@ -108,15 +108,25 @@ def r10a(ctx):
                     ctx.proved("R10a", f.file, f.short, c, f"{short}(...) list options",
                                "both list options are taken from the options object")
         # mapping selection
+        def _is_opt(t):
+            return opts_expr(t, "allow_key_edits") or (isinstance(t, ast.Name) and t.id == "allow_key_edits")
         sel = [i for i in walk_no_nested(f.node) if isinstance(i, ast.If) and (
-            opts_expr(i.test, "allow_key_edits") or (isinstance(i.test, ast.Name) and i.test.id == "allow_key_edits"))]
+            _is_opt(i.test) or (isinstance(i.test, ast.UnaryOp) and isinstance(i.test.op, ast.Not) and _is_opt(i.test.operand)))]
         for i in sel:
             n_map += 1
-            body, orelse = ast.unparse(ast.Module(body=i.body, type_ignores=[])), ast.unparse(ast.Module(body=i.orelse, type_ignores=[]))
+            then_b, else_b = list(i.body), list(i.orelse)
+            if not else_b and then_b and isinstance(then_b[-1], (ast.Return, ast.Raise)):
+                # guard-clause form: what follows the `if` in the same block is the other arm
+                from ..astx import block_of
+                lst, idx = block_of(i)
+                else_b = list(lst[idx + 1:])
+            if isinstance(i.test, ast.UnaryOp):
+                then_b, else_b = else_b, then_b
+            body, orelse = ast.unparse(ast.Module(body=then_b, type_ignores=[])), ast.unparse(ast.Module(body=else_b, type_ignores=[]))
             good_then = "DictNode.from_dict(" in body.replace("FixedKeyDictNode", "FKD") or "PyObjAttributes.from_dict(" in body
             auto = any(isinstance(s, ast.Assign) and isinstance(s.targets[0], ast.Attribute) and s.targets[0].attr == "auto_match_keys"
                        and (opts_expr(s.value, "auto_match_keys") or (isinstance(s.value, ast.Name) and s.value.id == "auto_match_keys"))
-                       for s in ast.walk(i) if isinstance(s, ast.Assign))
+                       for st_ in then_b for s in ast.walk(st_) if isinstance(s, ast.Assign))
             good_else = "FixedKeyDictNode.from_dict(" in orelse or "FixedAttributes.from_dict(" in orelse
             if good_then and good_else and auto:
                 ctx.proved("R10a", f.file, f.short, i, "mapping selection",
